@@ -139,4 +139,32 @@ theorem onInstanceResult_model (a sf : Bool) (ce : Ctx → Bool) :
   unfold Gen.Startup.onInstanceResult onRunResult
   cases a <;> cases sf <;> cases h : ce Ctx.run <;> simp [h]
 
+/-! ### round 3: how a pool fails, how its `Run` returns -/
+
+/-- the results of `Provider.Run` and `Aggregator.Run`: an error that is not the run context's own fails the pool, nothing else
+happens (in particular a provider or aggregator that RETURNS — without error, or with the context error after the run was
+cancelled — stops nothing) -/
+theorem onOtherResult_eq (ce : Ctx → Bool) :
+    Gen.Startup.onProviderResult ce = onOtherResult ce ∧ Gen.Startup.onAggregatorResult ce = onOtherResult ce := by
+  unfold Gen.Startup.onProviderResult Gen.Startup.onAggregatorResult onOtherResult
+  cases ce Ctx.run <;> exact ⟨rfl, rfl⟩
+
+/-- `(*instancePool).Run` returns nil only when the channel of the await loop was CLOSED (everything awaited), the reported error
+when one was sent, and its context's error when that context is done -/
+theorem poolRunSelect_eq :
+    Gen.Startup.poolRunSelect .ctxDone = .ctxErr ∧
+      ∀ ok, Gen.Startup.poolRunSelect (.awaitErr ok) = if ok then .reported else .nil :=
+  ⟨rfl, fun _ => rfl⟩
+
+/-- returning cancels the pool context, parent of the run context; the engine's return cancels every pool -/
+theorem returnCancels_eq : Gen.Startup.poolRunCancelsOnReturn = true ∧ Gen.Startup.runCtxIsChildOfPoolCtx = true ∧
+    Gen.Startup.engineReturnCancelsPools = true := ⟨rfl, rfl, rfl⟩
+
+/-- a reported error is handed to the pool's `Run`, or given up only when the pool context is done (order of the `select`
+cases is irrelevant) -/
+theorem onErrAwaitedCases_eq (x : ErrCase) : x ∈ Gen.Startup.onErrAwaitedCases ↔ (x = .send ∨ x = .poolCtxDone) := by
+  cases x <;> simp [Gen.Startup.onErrAwaitedCases]
+
+theorem onErrAwaitedCases_len : Gen.Startup.onErrAwaitedCases.length = 2 := rfl
+
 end Pandora.Bridge.C12Startup
